@@ -1,5 +1,6 @@
 import Sucds.Proofs.SerialStruct
 import Sucds.Proofs.SizeInBytes
+import Sucds.Proofs.SerialStream
 /-! # C08 — serialization round-trips every structure and accounts for every byte
 
 `Codec.Good c Wf` bundles, for every well-formed value `x` (every stored number fits the width it is
@@ -61,6 +62,18 @@ theorem back_to_back {α β} {a : Codec α} {b : Codec β} {va vb} (ha : a.Good 
     (x : α) (y : β) (hx : va x) (hy : vb y) (rest : List Nat) :
     ∃ r, a.get (a.put x ++ (b.put y ++ rest)) = some (x, r) ∧ b.get r = some (y, rest) :=
   Good.back_to_back ha hb x y hx hy rest
+
+/-- … at any length: `n` values serialized one after another into one stream (`putMany` = a loop of
+`serialize_into`) are read back by `n` successive `deserialize_from` calls (`getMany`) in order, consuming exactly
+the bytes written, whatever follows; and the stream is exactly the sum of their `size_in_bytes()` long -/
+theorem stream_roundtrip {α} {c : Codec α} {v} (h : c.Good v) (xs : List α) (hx : ∀ x ∈ xs, v x) (rest : List Nat) :
+    getMany c xs.length (putMany c xs ++ rest) = some (xs, rest) ∧ (putMany c xs).length = (xs.map c.size).sum :=
+  ⟨h.stream_roundtrip xs hx rest, h.stream_length xs⟩
+
+-- instantiated for a structure of the crate: any list of well-formed Rank9Sel values
+example (xs : List R9) (hx : ∀ x ∈ xs, R9.Wf x) (rest : List Nat) :
+    getMany R9.codec xs.length (putMany R9.codec xs ++ rest) = some (xs, rest) :=
+  (stream_roundtrip R9.codec_good xs hx rest).1
 
 -- non-vacuity: a concrete well-formed value
 example : BV.Wf ⟨#[5], 3⟩ := by
